@@ -8,7 +8,7 @@ ENTRIES = {
 }
 import json as _json
 from pathlib import Path as _Path
-PENDING = {"C02"}    # built but not yet integrated (waiting for their fix commits)
+PENDING = set()    # built but not yet integrated (waiting for their fix commits)
 for _f in sorted((_Path(__file__).resolve().parent / "entries").glob("C*.json")):
     if _f.stem not in PENDING:
         ENTRIES[_f.stem] = _json.loads(_f.read_text())
